@@ -538,8 +538,13 @@ def run_type_assignment(
     for cell in result:
         for parent_level, child_level in zip(level_list[:-1], level_list[1:]):
             if cell[child_level]['avg_correlation'] is None:
-                cell[child_level]['avg_correlation'] = \
-                    cell[parent_level]['avg_correlation']
+                if parent_level is None:
+                    # the root itself has a single child, so there is
+                    # no level above at which a choice was made
+                    cell[child_level]['avg_correlation'] = 1.0
+                else:
+                    cell[child_level]['avg_correlation'] = \
+                        cell[parent_level]['avg_correlation']
 
     # add aggregate_probability (the product of bootstrapping_probability)
     # across levels in the taxonomy
